@@ -174,6 +174,31 @@ def check(tier='quick', seed=0):
         r = check_result('mu_r and epsilon_r', grid, sigma, sfield, ef, info, 1e-6, mu_r, eps_r)
         if r:
             return fail(shape=shape, frequency=freq, **r)
+    # ---- strongly diffusive regime (skin depth much smaller than the cells), Krylov solver without multigrid pre-conditioner: the first
+    #      half-step of BiCGSTAB can already meet the tolerance, SciPy then returns without ever calling the callback
+    shape = (8, 8, 8)
+    h = [np.ones(n) * 100.0 for n in shape]
+    grid = emg3d.TensorMesh(h, origin=(-400, -400, -400))
+    sx = np.ones(shape)
+    model = emg3d.Model(grid, property_x=sx, mapping='Conductivity')
+    sigma = dict(x=sx, y=sx, z=sx)
+    for freq in (1.0e6, -1.0e7):
+        sfield = emg3d.get_source_field(grid, [30.0, -40.0, 20.0, 25, 10], frequency=freq)
+        for ssl in (('bicgstab', 'cgs') if tier == 'quick' else ('bicgstab', 'cgs', 'gcrotmk')):
+            for tol in (1e-2, 1e-3):
+                kw = dict(cycle=None, sslsolver=ssl, semicoarsening=False, linerelaxation=False, tol=tol, return_info=True)
+                cases += 1
+                ef, info = emg3d.solve(model, sfield, **kw)
+                r = check_result('fresh, diffusive regime, Krylov solver alone', grid, sigma, sfield, ef, info, tol)
+                if r:
+                    return fail(shape=shape, frequency=freq, cycle=None, sslsolver=ssl, tol=tol, **r)
+                cases += 1
+                st = ef.copy()
+                st.field *= (1 + 20 * tol)          # a start that is close to, but not within, the tolerance
+                info = emg3d.solve(model, sfield, efield=st, **dict(kw, tol=tol / 10))
+                r = check_result('supplied start near the tolerance, diffusive regime, Krylov solver alone', grid, sigma, sfield, st, info, tol / 10)
+                if r:
+                    return fail(shape=shape, frequency=freq, cycle=None, sslsolver=ssl, tol=tol / 10, **r)
     return dict(reproduced=False, cases=cases)
 
 
